@@ -114,6 +114,17 @@ class Collector:
         self.known_hits = collections.Counter()
         self.traces = 0
         self.notes = {}
+        self.harness_errors = []
+        self.search_mode = False
+
+    def phase(self, fn, *args, **kw):
+        import traceback
+        try:
+            return fn(*args, **kw)
+        except Exception as e:
+            traceback.print_exc()
+            self.harness_errors.append('%s: %r' % (getattr(fn, '__name__', 'phase'), e))
+            return None
 
     def n(self, quick, thorough):
         return thorough if self.tier_counts == 'thorough' else quick
@@ -160,6 +171,8 @@ class Collector:
         ctx.dist.update(self.dist)
         ctx.known_hits.update(self.known_hits)
         ctx.traces += self.traces
+        ctx.notes.update(self.notes)
+        ctx.harness_errors.extend(self.harness_errors)
         for d in self.disagreements:
             ctx.disagree(*d)
         for v in self.violations:
@@ -185,6 +198,16 @@ def _exh_worker(args):
             batch = []
     chk.number_batch(col, cu, batch, [DEFAULT, MINI], 'exh')
     return col
+
+
+def _group_worker(args):
+    group, phases, seed, search_pass, model_ok, verif, tier_counts = args
+    col = Collector(model_ok, verif, tier_counts)
+    col.search_mode = bool(search_pass)
+    chk = C18()
+    chk.search_pass = search_pass
+    times = chk.run_group(col, phases, seed, search_pass)
+    return col, times
 
 
 class C18(Check):
@@ -232,26 +255,54 @@ class C18(Check):
         return {'CssVerif/Gen/C18Tables.lean': c18_tables.generate(ctx.repo)}
 
     # ------------------------------------------------------------------------------------------
-    def run(self, ctx):
+    # the phases of one pass, grouped for the process pool: (phase name, arguments besides ctx); the phases of one
+    # group run in this order in one worker (strings / urls fill `src_cases` for token_values)
+    GROUPS = (
+        ('numbers-exh-0', (('numbers_exhaustive', ('c', 0, 3)),)),
+        ('numbers-exh-1', (('numbers_exhaustive', ('c', 1, 3)),)),
+        ('numbers-exh-2', (('numbers_exhaustive', ('c', 2, 3)),)),
+        ('numbers-rnd', (('check_pref_defaults', 'c'), ('run_corpus', 'c'), ('numbers', 'cr'))),
+        ('float', (('float_assumption', 'r'), ('too_large', 'c'), ('keywords', 'cr'), ('calc_correspondence', 'cr'))),
+        ('colour', (('colorfuncs', 'cr'), ('hashes', 'cr'))),
+        ('strings', (('strings', 'cr'), ('urls', 'cr'), ('token_values', 'c'))),
+        ('lists', (('helpers', 'cr'), ('separators', 'cr'), ('out_append_direct', 'cr'), ('pv_correspondence', 'cr'))),
+        ('order', (('order_and_separators', 'cr'),)),
+    )
+
+    def run_group(self, ctx, phases, seed, search_pass):
+        """the phases of one group, in order, each with its own random stream derived from VERIF_SEED"""
+        import time
         cu = cssutils_()
         self.cu = cu
-        rng = ctx.sub_rng('c18' + ('/search%d' % getattr(self, 'search_pass', 0) if getattr(ctx, 'search_mode', False) else ''))
-        ctx.phase(self.check_pref_defaults, ctx, cu)
-        ctx.phase(self.run_corpus, ctx, cu)
-        ctx.phase(self.numbers, ctx, cu, rng)
-        ctx.phase(self.float_assumption, ctx, rng)
-        ctx.phase(self.helpers, ctx, cu, rng)
-        ctx.phase(self.hashes, ctx, cu, rng)
-        ctx.phase(self.keywords, ctx, cu, rng)
-        ctx.phase(self.colorfuncs, ctx, cu, rng)
-        ctx.phase(self.too_large, ctx, cu)
         self.src_cases = []
-        ctx.phase(self.strings, ctx, cu, rng)
-        ctx.phase(self.urls, ctx, cu, rng)
-        ctx.phase(self.token_values, ctx, cu)
-        ctx.phase(self.separators, ctx, cu, rng)
-        ctx.phase(self.order_and_separators, ctx, cu, rng)
-        ctx.phase(self.calc_correspondence, ctx, cu, rng)
+        times = {}
+        for name, args in phases:
+            tag = 'c18/%s%s' % (name, '/search%d' % search_pass if search_pass else '')
+            rng = __import__('random').Random('%s/%s/%s' % (seed, self.id, tag))
+            av = [ctx] + [cu if a == 'c' else rng if a == 'r' else a for a in args]
+            t0 = time.time()
+            ctx.phase(getattr(self, name), *av)
+            key = name + ''.join('.%s' % a for a in args if not isinstance(a, str))
+            times[key] = round(time.time() - t0, 1)
+        return times
+
+    def run(self, ctx):
+        search_pass = getattr(self, 'search_pass', 0) if getattr(ctx, 'search_mode', False) else 0
+        jobs = [(g, phases, ctx.seed, search_pass, ctx.model_ok, ctx.verif, ctx.tier_counts) for g, phases in self.GROUPS]
+        times = {}
+        if os.environ.get('C18_SERIAL'):
+            for g, phases, *_ in jobs:
+                times.update(self.run_group(ctx, phases, ctx.seed, search_pass))
+        else:
+            # implementation streams in a process pool (fork: cssutils and the driver path are inherited); every worker
+            # reports through a Collector that is merged here, nothing is cached across runs
+            with multiprocessing.get_context('fork').Pool(min(len(jobs), max(2, (os.cpu_count() or 4) - 2))) as pool:
+                for col, tms in pool.imap_unordered(_group_worker, jobs):
+                    col.merge_into(ctx)
+                    times.update(tms)
+        if ctx.n(2, 3) == 3 and not search_pass:
+            ctx.phase(self.numbers_exhaustive_pool, ctx, 3)
+        ctx.notes['phase_seconds'] = times
 
     # -- defaults ----------------------------------------------------------------------------------
     def check_pref_defaults(self, ctx, cu):
@@ -319,28 +370,26 @@ class C18(Check):
                 fp = '5'
             yield (sign, ip, fp, unit)
 
+    def numbers_exhaustive(self, ctx, cu, part, parts):
+        """quick tier: ALL literals with <= 2 + 2 digits, one third per worker"""
+        if ctx.n(2, 3) == 3 and not getattr(ctx, 'search_mode', False):
+            return      # thorough tier: `numbers_exhaustive_pool` (<= 3 + 3 digits), run by the parent after the groups
+        batch = [(None, comp) for i, comp in enumerate(self.gen_exhaustive(2)) if i % parts == part]
+        self.number_batch(ctx, cu, batch, [DEFAULT, MINI], 'exh')
+        ctx.notes['numbers_exhaustive_digits'] = '<=2+2'
+
     def numbers(self, ctx, cu, rng):
-        k = ctx.n(2, 3)
-        if getattr(ctx, 'search_mode', False):
-            k = 2
-        if k <= 2:
-            batch = []
-            for comp in self.gen_exhaustive(k):
-                batch.append((None, comp))
-                if len(batch) >= 60000:
-                    self.number_batch(ctx, cu, batch, [DEFAULT, MINI], 'exh')
-                    batch = []
-            self.number_batch(ctx, cu, batch, [DEFAULT, MINI], 'exh')
-        else:
-            # 3.7 million literals: split over worker processes, each with its own model driver
-            parts = max(2, min(14, (os.cpu_count() or 4) - 2))
-            with multiprocessing.get_context('fork').Pool(parts) as pool:
-                for col in pool.imap_unordered(_exh_worker, [(k, i, parts, ctx.model_ok, ctx.verif, ctx.tier_counts)
-                                                             for i in range(parts)]):
-                    col.merge_into(ctx)
-        ctx.notes['numbers_exhaustive_digits'] = '<=%d+%d' % (k, k)
         rnd = [(None, c) for c in self.gen_random(rng, ctx.n(6000, 150000))]
         self.number_batch(ctx, cu, rnd, ALL_PREFS if ctx.tier_counts != 'thorough' else [DEFAULT, OLZ, MINI, ALL_PREFS[5]], 'rnd')
+
+    def numbers_exhaustive_pool(self, ctx, k):
+        """3.7 million literals: split over worker processes, each with its own model driver"""
+        parts = max(2, min(14, (os.cpu_count() or 4) - 2))
+        with multiprocessing.get_context('fork').Pool(parts) as pool:
+            for col in pool.imap_unordered(_exh_worker, [(k, i, parts, ctx.model_ok, ctx.verif, ctx.tier_counts)
+                                                         for i in range(parts)]):
+                col.merge_into(ctx)
+        ctx.notes['numbers_exhaustive_digits'] = '<=%d+%d' % (k, k)
 
     def number_batch(self, ctx, cu, items, prefsets, tag):
         """items: (text or None, components or None). components = (sign, ip, fp, unit) as generated"""
@@ -990,6 +1039,264 @@ class C18(Check):
                      sample={'calc': t, 'prefs': repr(ps), 'impl': txt})
             if m != 'OK ' + enc(txt):
                 ctx.disagree('CSSCalc.cssText', {'text': t, 'prefs': repr(ps)}, txt, dec(m[3:]) if m.startswith('OK ') else m)
+
+    # -- T18.5: do_css_PropertyValue / do_css_CSSFunction against the model (Model/NumPV.lean) -------------
+    def comp_words(self, v):
+        """a component object in the notation of the `pv` driver request; None if it is not modelled"""
+        n = type(v).__name__
+        if n == 'DimensionValue':
+            if v.type in T2 and len(v.seq) == 1 and isinstance(v.seq[0].value, str):
+                return [T2[v.type] + ':' + enc(v.seq[0].value)]
+            return None
+        if n == 'Value':
+            k = {'IDENT': 'I', 'STRING': 'T', 'UNICODE-RANGE': 'R'}.get(v.type)
+            return None if k is None or not isinstance(v.value, str) else [k + ':' + enc(v.value)]
+        if n == 'URIValue':
+            return ['U:' + enc(v.uri)]
+        if n == 'CSSComment':
+            return ['M:' + enc(v.cssText)]
+        if n == 'CSSCalc':
+            w = self.calc_words(v)
+            return None if w is None else ['calc{'] + w + ['}']
+        if n == 'ColorValue' and v.colorType in ('HASH', 'IDENT'):
+            if len(v.seq) != 1 or not isinstance(v.seq[0].value, str):
+                return None
+            return [('H:' if v.colorType == 'HASH' else 'K:') + enc(v.seq[0].value)]
+        if n == 'CSSFunction' or (n == 'ColorValue' and v.colorType == 'FUNCTION'):
+            items = list(v.seq)
+            if not items or items[0].type != 'FUNCTION' or not isinstance(items[0].value, str):
+                return None
+            words = ['F:' + enc(items[0].value)]
+            for it in items[1:]:
+                if isinstance(it.value, str):
+                    if it.type == 'CHAR' and it.value == ',':
+                        words.append('C')
+                    elif it.type == 'CHAR' and it.value == ')':
+                        words.append(')')
+                    else:
+                        return None
+                else:
+                    w = self.comp_words(it.value)
+                    if w is None:
+                        return None
+                    words += w
+            if words[-1] != ')' or words.count(')') < 1:
+                return None
+            return words
+        return None
+
+    OUT_PUNCT = '+>~,:{;)]/=}[('
+
+    @classmethod
+    def plain_word(cls, t):
+        """`Plain` of Lemmas/NumPV.lean: the hypothesis of the T18.5 theorems on the text of every leaf"""
+        return (any(c not in cls.OUT_PUNCT and not c.isspace() for c in t)
+                and not (t.endswith(' ') and not t.endswith('\\ ')) and not t.startswith('*'))
+
+    def leaves_not_plain(self, v):
+        """the leaves of a component (its function names and the written texts of its non-function parts, under the
+        preferences in force) that are not ordinary words"""
+        n = type(v).__name__
+        if n == 'CSSFunction' or (n == 'ColorValue' and v.colorType == 'FUNCTION'):
+            bad = []
+            for i, it in enumerate(v.seq):
+                if isinstance(it.value, str):
+                    if i == 0 and not self.plain_word(it.value):
+                        bad.append(it.value)
+                else:
+                    bad += self.leaves_not_plain(it.value)
+            return bad
+        t = v.cssText
+        if n == 'CSSComment' and t == '':
+            return []           # keepComments off: no item is written (outside the theorems, inside the model)
+        return [] if self.plain_word(t) else [t]
+
+    def pv_words(self, pv):
+        words = []
+        for it in pv.seq:
+            if isinstance(it.value, str):
+                if it.type != 'operator':
+                    return None
+                words.append('O:' + enc(it.value))
+            else:
+                w = self.comp_words(it.value)
+                if w is None:
+                    return None
+                words += w
+        return words
+
+    @staticmethod
+    def grammar_shaped(words):
+        """the hypothesis of the T18.5 theorems: separators only between two components — no comma / slash first, last
+        or twice in a row at the top level, no comma first, last or twice in a row inside a function"""
+        prev = 'sep'
+        depth = 0
+        in_calc = False
+        for w in words:
+            if in_calc:                       # a calc() component: its own grammar (`fmtCalc`)
+                if w == '}':
+                    in_calc = False
+                    prev = 'comp'
+                continue
+            if w.startswith('O:') or w == 'C':
+                if prev in ('sep', 'open') or (w == 'C') != (depth > 0):
+                    return False
+                prev = 'sep'
+            elif w.startswith('F:'):
+                depth += 1
+                prev = 'open'
+            elif w == ')':
+                if prev == 'sep' or depth == 0:
+                    return False
+                depth -= 1
+                prev = 'comp'
+            elif w == 'calc{':
+                in_calc = True
+            elif w.startswith('M:'):
+                continue
+            else:
+                prev = 'comp'
+        return prev == 'comp' and depth == 0 and not in_calc
+
+    PV_IDENTS = ['a', 'bold', 'Arial', 'inherit', '-x', 'x-y', '_z', 'sans-serif', 'é', 'a\\ ', 'b\\+c', 'none', 'auto']
+    PV_STRINGS = ['"a b"', "'x'", '""', "'it\\'s'", '"a,b/c"', '"(x)"', "'\\a '", '"*/"', '"a\\\\"', "'q\\22 '"]
+    PV_URLS = ['url(a.png)', 'url( "a b" )', "url('x,y')", 'url()', 'URL(a/b)', 'url("a)b")']
+    PV_FNAMES = ['f', 'foo', 'counter', 'attr', 'rect', 'local', 'format', 'F', 'Fn', 'linear-gradient', '-moz-x', 'rotate']
+
+    def gen_pv_comp(self, rng, depth):
+        r = rng.random()
+        if r < 0.22:
+            sign = rng.choice(['', '', '', '-', '+'])
+            body = rng.choice(['0', '1', '10', '007', '0.5', '.5', '1.50', '0.0', '12.125', '3', '100', '0.000001'])
+            unit = rng.choice(['', '', 'px', 'em', '%', 'PX', 'deg', 's', 'e3', 'pt'])
+            return sign + body + unit
+        if r < 0.36:
+            return rng.choice(self.PV_IDENTS)
+        if r < 0.44:
+            return rng.choice(['red', 'RED', 'teal', 'transparent', '#abc', '#aabbcc', '#AbCdEf', '#aabbc0', '#FFF'])
+        if r < 0.54:
+            return rng.choice(self.PV_STRINGS)
+        if r < 0.60:
+            return rng.choice(self.PV_URLS)
+        if r < 0.66:
+            return rng.choice(['rgb(1,2,3)', 'rgba( 1 , 2 , 3 , .5 )', 'hsl(120, 50%, 50%)', 'RGB(10%,20%,30%)', 'hsla(0,0%,0%,0.50)'])
+        if r < 0.72:
+            return rng.choice(['u+0-7f', 'U+26', 'u+4??'])
+        if r < 0.80 and depth < 2:
+            return self.gen_calc(rng, 1)
+        if depth < 3:
+            n = rng.choice([0, 1, 1, 2, 2, 3, 4])
+            args = ''
+            for i in range(n):
+                if i:
+                    args += rng.choice([' ', '  ', ',', ', ', ' , ', ' ,'])
+                args += self.gen_pv_comp(rng, depth + 1)
+                if rng.random() < 0.05:
+                    args += rng.choice(['/*c*/', ' /* c */ '])
+            return rng.choice(self.PV_FNAMES) + '(' + rng.choice(['', ' ']) + args + rng.choice(['', ' ']) + ')'
+        return rng.choice(self.PV_IDENTS)
+
+    def gen_pv(self, rng):
+        n = rng.choice([1, 2, 2, 3, 3, 4, 5])
+        src = self.gen_pv_comp(rng, 0)
+        for _ in range(n - 1):
+            sp = rng.choice([' ', ' ', ' ', ',', '/'])
+            nxt = self.gen_pv_comp(rng, 0)
+            if sp == ' ':
+                src += rng.choice([' ', '  ', '\t', ' \n ', ' /*c*/ ', '/**/ ']) + nxt
+            else:
+                src += rng.choice(['', ' ', '  ']) + sp + rng.choice(['', ' ', ' /*c*/']) + nxt
+        return src
+
+    OUT_ITEMS = [('CHAR', '/'), ('CHAR', '*'), ('CHAR', '='), ('CHAR', '~'), ('CHAR', '|'), ('CHAR', '^'), ('CHAR', '$'),
+                 ('CHAR', ','), ('CHAR', ')'), ('CHAR', '('), ('CHAR', '+'), ('CHAR', '>'), ('CHAR', '-'), ('CHAR', ']'),
+                 ('IDENT', 'a'), ('IDENT', '*x'), ('IDENT', 'a\\ '), ('IDENT', 'b '), ('OTHER', '*='), ('OTHER', '1px'),
+                 ('OTHER', '*'), ('OTHER', '/'), ('OTHER', '='), ('STRING', 's"t'), ('STRING', ''), ('URI', 'u v'), ('URI', 'w'),
+                 ('HASH', '#aabbcc'), ('HASH', '#abcdef'), ('FUNCTION', 'f('), ('S', ' '), ('IDENT', ''), ('OTHER', '\t')]
+
+    def out_append_direct(self, ctx, cu, rng):
+        """Out.append / Out.value themselves (serialize.py:188-323) against outAppend / outValue on short item
+        sequences, incl. the pairs of d39f9c4 that must not fuse (`/` `*…`, `*` `=`, `~` `=` …), escaped and raw blanks at
+        the end of an item, empty strings, S items — the paths of Out.append the value serializers go through"""
+        seqs = [[('CHAR', '/'), ('IDENT', '*x')], [('CHAR', '*'), ('CHAR', '=')], [('CHAR', '~'), ('CHAR', '=')],
+                [('CHAR', '|'), ('CHAR', '=')], [('CHAR', '^'), ('CHAR', '=')], [('CHAR', '$'), ('CHAR', '=')],
+                [('IDENT', 'a'), ('CHAR', '/'), ('OTHER', '*')], [('IDENT', 'a\\ '), ('IDENT', 'b')], [('IDENT', 'b '), ('IDENT', 'c')],
+                [('OTHER', '/'), ('OTHER', '*=')], [('CHAR', '/'), ('S', ' '), ('CHAR', '*')]]
+        for _ in range(ctx.n(3000, 40000)):
+            seqs.append([rng.choice(self.OUT_ITEMS) for _ in range(rng.randint(1, 5))])
+        prefsets = [DEFAULT, MINI, PrefSet(False, False, '', ' '), PrefSet(True, True, '  ', '')]
+        lines, cases = [], []
+        for items in seqs:
+            for ps in prefsets:
+                old = ps.apply(cu)
+                try:
+                    out = cu.serialize.Out(cu.ser)
+                    for t, v in items:
+                        out.append(v, 'X-OTHER' if t == 'OTHER' else t)
+                    txt = out.value()
+                finally:
+                    ps.restore(cu, old)
+                lines.append('outseq %s %s' % (ps.proto(), ' '.join('%s:%s' % (t, enc(v)) for t, v in items)))
+                cases.append((items, ps, txt))
+        out = ctx.driver(lines) if ctx.model_ok else []
+        for (items, ps, txt), m in zip(cases, out):
+            ctx.case(key=('outseq', repr(items), ps.key()), nontrivial=len(items) > 1, kind='outseq:%d' % len(items),
+                     sample={'items': repr(items), 'prefs': repr(ps), 'impl': txt})
+            if m != 'OK ' + enc(txt):
+                ctx.disagree('Out.append / Out.value', {'items': repr(items), 'prefs': repr(ps)}, txt,
+                             dec(m[3:]) if m.startswith('OK ') else m)
+
+    def pv_correspondence(self, ctx, cu, rng):
+        """PropertyValue.cssText vs fmtPV (do_css_PropertyValue, do_css_CSSFunction nested to any depth, Out.append with
+        the `/`+`*` guard) under spacer / listItemSpacer / omitLeadingZero / minimizeColorHash / keepComments records;
+        also checks that every parsed value has the shape the T18.5 theorems quantify over"""
+        from cssutils.css import PropertyValue
+        texts = ['a', '1px/2px , "x" url(a) f(1,2 3) calc(1px + 2px) #aabbcc red rgb(1,2,3)', 'f()', 'f( )', 'f(g(h(1, 2) 3), "s")',
+                 'a/**/b', 'f(/*x*/a)', 'f(a/*x*/b) /*y*/ c', '"a"/"b" , \'c\'', 'a , b', 'a,b', '0.50px -.5em +0.0pt', 'f(0.5,.5)',
+                 'foo(1, -2 3)', 'format("woff") , local(x)', 'rect(1px, 2px, 3px, 4px)', 'a\\  b', 'f(a\\ )', 'f(a\\ ,b)', 'u+0-7f, U+26',
+                 'counter(x , upper-roman) "." counter( y )', 'f("*/" , url( "*" ))', 'x / 1.0 / y', '-x -1 - y' ]
+        texts += [self.gen_pv(rng) for _ in range(ctx.n(2500, 50000))]
+        prefsets = [DEFAULT, MINI, PrefSet(False, True, '', ' '), PrefSet(True, True, ' ', ''), PrefSet(False, False, '  ', ' ')]
+        lines, cases = [], []
+        prefs = cu.ser.prefs
+        for t in texts:
+            pv = PropertyValue(t)
+            if not pv.wellformed:
+                ctx.count('pv:malformed')
+                continue
+            for keep in (True, False):
+                prefs.keepComments = keep
+                try:
+                    if not keep and '/*' not in t:
+                        continue
+                    words = self.pv_words(pv)
+                    if words is None:
+                        ctx.count('pv:not-modelled')
+                        continue
+                    if not self.grammar_shaped(words):
+                        ctx.disagree('PropertyValue.seq: separators only between two components (hypothesis of T18.5)',
+                                     {'text': t}, ' '.join(words), 'component (separator component)*')
+                    for ps in prefsets:
+                        lines.append('pv %s %s' % (ps.proto(), ' '.join(words)))
+                        old = ps.apply(cu)
+                        try:
+                            cases.append((t, ps, keep, pv.cssText))
+                            bad = [b for it in pv.seq if not isinstance(it.value, str) for b in self.leaves_not_plain(it.value)]
+                        finally:
+                            ps.restore(cu, old)
+                        if bad:
+                            ctx.disagree('every leaf of a value is written as an ordinary word (hypothesis `Plain` of T18.5)',
+                                         {'text': t, 'prefs': repr(ps)}, bad, 'Plain')
+                finally:
+                    prefs.keepComments = True
+        out = ctx.driver(lines) if ctx.model_ok else []
+        for (t, ps, keep, txt), m in zip(cases, out):
+            depth = t.count('(')
+            ctx.case(key=('pv', t, ps.key(), keep), nontrivial=(txt != t), kind='pv:corr:%s' % ('nested' if depth > 1 else 'func' if depth else 'flat'),
+                     sample={'value': t, 'prefs': repr(ps), 'impl': txt})
+            if m != 'OK ' + enc(txt):
+                ctx.disagree('PropertyValue.cssText', {'text': t, 'prefs': repr(ps), 'keepComments': keep}, txt,
+                             dec(m[3:]) if m.startswith('OK ') else m)
 
     def token_signature(self, text):
         """the non-white-space token sequence of a value text, numbers as exact (value, unit) so that only layout and
